@@ -33,7 +33,6 @@ pub fn raw_op(set: &str, op: &str, x: u128, y: u128) -> Option<u128> {
         "FP65521" => dispatch!(crate::fp::FP65521, u16),
         "FP61441" => dispatch!(crate::fp::FP61441, u16),
         "FP40961" => dispatch!(crate::fp::FP40961, u16),
-        "FP65521S" => dispatch!(crate::fp::FP65521S, u16),
         "FP61441S" => dispatch!(crate::fp::FP61441S, u16),
         "FP12289S" => dispatch!(crate::fp::FP12289S, u16),
         "FP32" => dispatch!(crate::fp::FP32, u32),
@@ -72,7 +71,6 @@ pub fn raw_params(set: &str) -> Option<(u128, u128, u128, u128, usize, u128, u12
         "FP65521" => params!(crate::fp::FP65521, u16),
         "FP61441" => params!(crate::fp::FP61441, u16),
         "FP40961" => params!(crate::fp::FP40961, u16),
-        "FP65521S" => params!(crate::fp::FP65521S, u16),
         "FP61441S" => params!(crate::fp::FP61441S, u16),
         "FP12289S" => params!(crate::fp::FP12289S, u16),
         "FP32" => params!(crate::fp::FP32, u32),
